@@ -23,7 +23,7 @@ TraceInit ==
             eps |-> {}]
   /\ hdr = [x |-> "", authz |-> "", scheme |-> ""]
   /\ ten = [table |-> {}, hdr |-> "", signedFor |-> ""]
-  /\ tgt = [host |-> "", header |-> "", path |-> ""]
+  /\ tgt = [host |-> "", header |-> "", path |-> "", fwd |-> FALSE]
 
 \* the handler (or any handler behind the authentication middleware) ran
 Ran(e) == e.status # 401
@@ -75,7 +75,7 @@ TraceNext ==
                 eps |-> SetOf(e.tok.eps)]
      /\ hdr' = [x |-> e.hdr.x, authz |-> e.hdr.authz, scheme |-> e.hdr.scheme]
      /\ ten' = [table |-> SetOf(e.ten.table), hdr |-> e.ten.hdr, signedFor |-> e.ten.signedFor]
-     /\ tgt' = [host |-> e.tgt.host, header |-> e.tgt.header, path |-> e.tgt.path]
+     /\ tgt' = [host |-> e.tgt.host, header |-> e.tgt.header, path |-> e.tgt.path, fwd |-> e.tgt.fwd]
      /\ viol' = IF e.op = "Reset" THEN {} ELSE Violations(e)
      /\ drift' = drift + (IF e.op = "Reset" \/ Predicted(e) THEN 0 ELSE 1)
 
